@@ -24,7 +24,7 @@ NAME = 'status'
 PROPERTY = 'C20'
 LEVEL = 'fault_enumeration'
 RULE = ('A case is one seeded small library (4..40 fragments, 1..4 contigs, with unplaced/orphan/invalid fragments) x pipeline {single process, --multiprocess} '
-        'x method {nla, chic} x initial state {empty directory, leftovers of a successful run}; for it the fault family is ENUMERATED from the crash-point map of '
+        'x method {nla, chic} x initial state {empty directory, leftovers of a successful run, leftovers of a lifetime on another input}; for it the fault family is ENUMERATED from the crash-point map of '
         'a fault-free traced run: kill (os._exit) at every distinct executed (function,line) of the pipeline functions in every occurrence class '
         '{first, second, middle, last-but-one, last}; an exception at every I/O seam (pysam.sort/index/merge/idxstats, AlignmentFile.write/close, os.rename/remove, '
         'shutil.move/rmtree; fetch of the input: EIO or a failing allocation at a delivered record) in call-index classes {0,1,middle,last} with each applicable error; worker exception / loss in every job; SIGINT (KeyboardInterrupt inside the blocking next()) while the main process waits for result {0,1,middle,last,end}; thorough tier adds '
@@ -40,7 +40,7 @@ COMPONENTS = {'real': tc.TAGGER_REAL + ['write_status'],
               'stub': tc.TAGGER_STUB + ['crash injector: sys.settrace line events on the pipeline code objects, os._exit(137) in the forked child',
                                         'fault plan: proxy objects bound to the names pysam / os / shutil / move inside bamFunctions and bamtagmultiome; write-mode AlignmentFile wrapper',
                                         'SimPool worker exception / worker loss', 'RLIMIT_FSIZE in the forked child (thorough tier)']}
-REQUIRED_PROBES = ['rerun_after_failure_succeeded', 'input_index_stale', 'baseline_success', 'kill_after_first_write', 'kill_during_post_processing', 'seam_fault_fired', 'worker_fault_fired', 'stale_success_initial_state', 'status_not_success_after_fault']
+REQUIRED_PROBES = ['prior_lifetime_on_another_input', 'rerun_after_failure_succeeded', 'input_index_stale', 'baseline_success', 'kill_after_first_write', 'kill_during_post_processing', 'seam_fault_fired', 'worker_fault_fired', 'stale_success_initial_state', 'status_not_success_after_fault']
 EXHAUSTIVE_NOTE = 'per sampled (workload, pipeline, method, initial state): all executed (function,line) sites x 5 occurrence classes, all seams x 4 call-index classes x errors, all jobs x 3 worker faults'
 SLICES = 4
 OCC = ['first', 'second', 'middle', 'last-but-one', 'last']
@@ -107,7 +107,10 @@ def generate(seed, tier, index=None):
         frags = [f for f in frags if f['ctg'] != ci] + [o]
     params = {'method': method, 'encoded': w.random() < 0.7, 'lib': 'LIB', 'stale': stale, 'tier': tier, 'no_rejects': no_rejects, 'special_layout': special,
               # the input's index was left over from an earlier version of the file (N simulated seconds older) in two of the eight rotations
-              'index_state': [['stale', 'stale-empty'][(h // 8 + h) % 2], w.choice([1, 30, 3600])] if h % 8 in (2, 5) else None}
+              'index_state': [['stale', 'stale-empty'][(h // 8 + h) % 2], w.choice([1, 30, 3600])] if h % 8 in (2, 5) else None,
+              # initial state: what a lifetime on ANOTHER input left in the same directory under the same -o (a library whose genome has a contig
+              # beyond the 2^29 limit of BAI indices, CSI-indexed, with a read out there)
+              'prior_other': h % 16 in (4, 9, 10)}
     mode = {'mp': mp, 'no_rejects': params['no_rejects'], 'isolation': 'fork' if (mp and (h >> 3) % 2) else 'inproc', 'name': 'multi' if mp else 'single', 'width': st.schedule.randint(1, 3), 'schedule': {'policy': 'seeded'}, 'seed': seed}
     return {'params': params, 'genome': genome, 'workload': frags, 'mode': mode}   # 'plans' absent -> enumerated by execute()
 
@@ -191,6 +194,26 @@ def execute(case):
         P = [r for r in inp if not r['sec']]
         both = {i for i, c in collections.Counter(r['id'] for r in P).items() if c == 2}
         want = collections.Counter(tc.conservation_key(r, both) for r in P)
+        prior_dir = None
+        if p.get('prior_other') and case['workload']:
+            import pysam
+            g2 = [list(x) for x in case['genome']] + [['chrLong', 2 ** 29 + 20000]]
+            lf = dict(case['workload'][0], n=9000, ctg=len(g2) - 1, site=2 ** 29 + 5000, defect=None, extra=None, clip=0, mol=9000, r2cig=None)
+            pcase = dict(case, genome=g2, workload=[dict(f) for f in case['workload'][:3]] + [lf])
+            pcase['params'] = dict(p, index_state=None, header_rgs=None)
+            psrc = os.path.join(d, 'priorsrc')
+            os.makedirs(psrc, exist_ok=True)
+            try:
+                tc.write_input(psrc, pcase)
+            except pysam.SamtoolsError:
+                pysam.index('-c', os.path.join(psrc, 'in.bam'))       # positions beyond 2^29 need a CSI index
+            po = tc.run_mode(d, pcase, dict(mode, faults=[], isolation='inproc'), 'prior', in_bam=os.path.join(psrc, 'in.bam'))
+            prior_dir = po['dir']
+            probe('prior_lifetime_on_another_input')
+            log.add('prior', po['status'], (po['res'].get('exception') or '').split(':')[0])
+            os.makedirs(os.path.join(d, 'base'), exist_ok=True)
+            shutil.rmtree(os.path.join(d, 'base'))
+            shutil.copytree(prior_dir, os.path.join(d, 'base'))
         # ---- fault-free traced baseline: crash-point map, seam call counts
         # the crash-point map is recorded with in-process workers (lines executed inside forked workers are not visible to the tracer's owner)
         base = tc.run_mode(d, case, dict(mode, trace='record', faults=[], isolation='inproc'), 'base', in_bam=in_bam)
@@ -231,7 +254,9 @@ def execute(case):
         if p.get('index_state'):
             probe('input_index_stale')
         stale_dir = None
-        if p['stale'] and base['ok']:
+        if prior_dir is not None:
+            stale_dir = prior_dir
+        elif p['stale'] and base['ok']:
             stale_dir = base['dir']
             probe('stale_success_initial_state')
         first_idx = {}
